@@ -338,6 +338,20 @@ for _p in ("C01", "C02", "C03", "C04"):
     _more(_p, "enum", "derive-core-enum", "harnesses", ["derive_tagfn_3"])
 PROPS["C13"]["units"] = PROPS["C13"]["units"] + [{"kind": "enum", "group": "json-target-enum", "harnesses": ["cont_jvalue"], "bounds": "13 122 arena payloads: a sequence or map of two members, each a scalar (incl. NaN / infinity) or a nested one-element sequence / map"}]
 
+# after the fourth batch of seeded changes
+_more("C12", "enum", "derive-total-enum", "harnesses", ["derive_cont9b", "derive_camel2_2"])
+PROPS["C12"]["units"] = PROPS["C12"]["units"] + [{"kind": "enum", "group": "scalar-text", "harnesses": ["scalar_messages", "scalar_text_contents"],
+    "bounds": "char / String targets: all strings of 0..=3 characters over a pool of 1-4 byte characters, and strings of 17..=26 ASCII bytes with one pool character in front, behind or in the middle (multi-byte characters straddling every small byte offset); 24 integer targets x 33 payloads"}]
+_more("C11", "enum", "derive-fns-enum", "harnesses", ["derive_cont9b"])
+_more("C11", "kani", "derive-fns", "thorough_filters", ["h_derive::proofs::derive_cont9b::check"])
+_more("C07", "enum", "derive-keys-enum", "harnesses", ["derive_camel2_2", "derive_big22"])
+_more("C08", "enum", "derive-missing-enum", "harnesses", ["derive_big22"])
+_more("C09", "enum", "derive-unknown-enum", "harnesses", ["derive_camel2_2", "derive_big22"])
+for _p in ("C01", "C02", "C03", "C04"):
+    _more(_p, "enum", "derive-core-enum", "harnesses", ["derive_cont9b", "derive_camel2_2"])
+for _p in ("C07", "C09"):
+    PROPS[_p]["text"] += " A 22-field struct (one field skipped and one renamed in the middle; native execution only) pins the declaration order of the accepted list and the key of every field beyond the sizes at which slice sorts change algorithm; identifiers that are already camelCase / mixed case under rename_all = camelCase (Camel2) are in both catalogues."
+
 # C13: container part, bounded
 PROPS["C13"]["units"] = PROPS["C13"]["units"] + [{"kind": "enum", "group": "json-documents", "harnesses": ["json_documents"],
     "bounds": "797 603 documents: nesting depth <= 2, arrays / objects of width <= 2 (keys `k`, `l l`), scalars from the statement's boundary set (0, 7, 2^53+1, u64::MAX, -1, -2^53-1, i64::MIN, 1.5, -0.0, a subnormal, 1e300, 2^64 as float, two strings with escapes / non-ASCII, null, booleans)"}]
